@@ -6,6 +6,7 @@ import (
 	"verifsim/core"
 	"verifsim/engines/e1doc"
 	"verifsim/engines/e2wire"
+	"verifsim/engines/e3url"
 	"verifsim/engines/e4store"
 	"verifsim/engines/e5schema"
 	"verifsim/engines/e6resource"
@@ -24,6 +25,7 @@ func main() {
 
 	reg(e1doc.Engine{}, "C11", "C03")
 	reg(e2wire.Engine{}, "C01", "C02", "C05")
+	reg(e3url.Engine{}, "C08")
 	reg(e4store.Engine{}, "C19", "C09")
 	reg(e5schema.Engine{}, "C14", "C15", "C16")
 	reg(e6resource.Engine{}, "C17", "C18")
